@@ -3,7 +3,10 @@
 package trzsz
 
 import (
+	"bytes"
 	"fmt"
+	"os"
+	"path/filepath"
 	"regexp"
 	"runtime"
 	"strconv"
@@ -264,7 +267,115 @@ func vfMinI64(a, b int64) int64 {
 	return b
 }
 
+// vfFilterBarCase: the progress line of a real transfer through a real filter must fit the width last
+// reported through SetTerminalColumns, also for the next transfer and after a stop prompt was dismissed.
+func vfFilterBarCase(c *vfCtx, variant int) {
+	rig := vfNewFilterRig(c, TrzszOptions{})
+	defer rig.Close()
+	f := rig.filter
+	f.SetTerminalColumns(120)
+	src := filepath.Join(c.Dir, "src")
+	dst := filepath.Join(c.Dir, "dst")
+	os.MkdirAll(src, 0755)
+	os.MkdirAll(dst, 0755)
+	os.WriteFile(filepath.Join(src, "a-file-with-a-fairly-long-name-for-the-left-column.bin"), vfNewRand(c.ID, "a").Bytes(10<<20), 0644)
+	f.SetDefaultDownloadPath(dst)
+	narrow := int32([]int{60, 40, 25, 80}[variant%4])
+	run := func(n int, during func()) bool {
+		st := newTransfer(rig.serverOut, nil, false, nil)
+		rig.attach(func(p []byte) { st.addReceivedData(p, false) })
+		done := make(chan error, 1)
+		go func() {
+			files, err := checkPathsReadable([]string{filepath.Join(src, "a-file-with-a-fairly-long-name-for-the-left-column.bin")}, false)
+			if err == nil {
+				args := &tszArgs{baseArgs: baseArgs{Overwrite: true, Bufsize: bufferSize{4096}, Timeout: 30}}
+				err = sendFiles(st, files, args, noTmuxMode, -1)
+			}
+			if err != nil {
+				st.serverError(err)
+			}
+			st.cleanup()
+			done <- err
+		}()
+		rig.serverOut.WriteAtomic([]byte(rig.trigger("S", kTrzszVersion)))
+		if during != nil {
+			deadline := time.Now().Add(10 * time.Second)
+			for !f.IsTransferringFiles() && time.Now().Before(deadline) {
+				time.Sleep(time.Millisecond)
+			}
+			time.Sleep(400 * time.Millisecond) // a couple of progress lines at the old width
+			during()
+		}
+		select {
+		case err := <-done:
+			if err != nil {
+				c.Inconc("transfer %d failed: %v", n, vfClip(err.Error()))
+				return false
+			}
+		case <-time.After(120 * time.Second):
+			c.Slow("c20-filter-transfer-timeout", "transfer %d did not finish", n)
+			return false
+		}
+		rig.waitIdle(20 * time.Second)
+		rig.attach(nil)
+		return true
+	}
+	mark := 0
+	if !run(1, func() {
+		f.SetTerminalColumns(narrow) // the user narrows the terminal mid-transfer
+		time.Sleep(250 * time.Millisecond) // a line laid out before the resize may still be on its way
+		mark = rig.clientOut.Len()
+		if variant%2 == 1 {
+			// Ctrl-C, then "continue": the bar is handed the filter's width again
+			rig.clientIn.WriteAtomic([]byte{0x03})
+			time.Sleep(300 * time.Millisecond)
+			rig.clientIn.WriteAtomic([]byte("q"))
+		}
+	}) {
+		return
+	}
+	if !run(2, nil) {
+		return
+	}
+	out := rig.clientOut.Bytes()[mark:]
+	lines := 0
+	for _, seg := range bytes.Split(out, []byte("\r")) {
+		// a progress line ends where the cursor is shown again or the next trigger is echoed
+		for _, end := range []string{"\x1b[?25h", "\x1b7", "\n"} {
+			if i := bytes.Index(seg, []byte(end)); i >= 0 {
+				seg = seg[:i]
+			}
+		}
+		vis, _ := vfVisible(string(seg), "")
+		vis = strings.TrimRight(vis, "\n")
+		if !vfPctTail.MatchString(vis) {
+			continue // not a progress line (prompt text, trigger echo, messages)
+		}
+		lines++
+		if w := runewidth.StringWidth(vis); w > int(narrow) {
+			c.Viol("c20-filter-line-too-wide", "the terminal was narrowed to %d columns during the first transfer, yet a later progress line is %d wide: %q", narrow, w, vis)
+			return
+		}
+	}
+	c.Obs("filter_progress_lines_checked", int64(lines))
+	if lines > 0 {
+		c.Nontrivial(fmt.Sprintf("filter-bar narrow=%d variant=%d", narrow, variant))
+		c.Sample(map[string]interface{}{"kind": "real filter, resize during a transfer", "narrowed_to": narrow, "ctrl_c_continue": variant%2 == 1, "progress_lines_after_resize": lines})
+	} else {
+		c.Inconc("no progress line was rendered after the resize")
+	}
+}
+
 func TestVF_C20(t *testing.T) {
+	if os.Getenv("VF_FILTERBAR") != "" {
+		var cases []vfCase
+		for v := 0; v < vfPick(8, 48); v++ {
+			v := v
+			cases = append(cases, vfCase{ID: fmt.Sprintf("filterbar-%d", v), Run: func(c *vfCtx) { vfFilterBarCase(c, v) }})
+		}
+		vfRunCases(t, "C20", cases, 2, 300*time.Second)
+		return
+	}
 	vfInstallClock()
 	var cases []vfCase
 	// battery x all widths (exhaustive over widths 1..500)
